@@ -71,14 +71,6 @@ async def process_resource_event(
     body = live_fresh_body if live_fresh_body is not None else bodies.Body(raw_body)
     patch = patches.Patch(memory.remaining_patch, body=body)
 
-    # The transformations carried over from a conflicting (HTTP 422) cycle that change nothing in
-    # the object as it is now are fulfilled already (e.g. by the change they conflicted with).
-    # Forget them: a carried patch prevents the handlers in this cycle for the sake of an instant
-    # re-patching, but these would send no request and bring no event: the change would be lost.
-    if memory.remaining_patch is not None and not patch.as_json_patch(body):
-        memory.remaining_patch = None
-        patch = patches.Patch(body=body)
-
     # Different loggers for different cases with different verbosity and exposure.
     local_logger = loggers.LocalObjectLogger(body=body, settings=settings)
     terse_logger = loggers.TerseObjectLogger(body=body, settings=settings)
@@ -394,10 +386,16 @@ async def process_resource_causes(
         # so, come back when the waiting time is over, the same as for the delayed handlers
         # (the sleep is skipped if the patch does change the object, or interrupted by new events).
         # Not while paused: then nothing is to be written, and the un-pausing brings a fresh listing.
+        # The same goes for the transformations carried over from a conflicting (HTTP 422) cycle:
+        # they are re-evaluated on the freshest state when patching, and if they are fulfilled
+        # already (e.g. by the very change they conflicted with), nothing is sent: come back at once.
         waiting_delays: Collection[float] = []
-        if (consistency_time is not None
-                and not (operator_paused is not None and operator_paused.is_on())):
+        if operator_paused is not None and operator_paused.is_on():
+            pass
+        elif consistency_time is not None:
             waiting_delays = [max(0., consistency_time - asyncio.get_running_loop().time())]
+        elif not patch_initially_empty:
+            waiting_delays = [0.]
         return list(spawning_delays) + list(waiting_delays), False
 
     # Now, the consistency is either pre-proven (by receiving or not expecting any resource version)
